@@ -280,3 +280,97 @@ example : let s := St.run {} [.send true, .send true, .poll 0, .poll 1, .deliver
   refine ⟨by decide, .inl rfl, by decide, by decide⟩
 
 end Session
+
+/-! ## message-ids are never reused — not even the ids of `rpc()` calls that failed
+
+`Session::rpc` draws its id first (`self.last_message_id.increment()`, session.rs:288) and may then
+fail in the builder, in the transport before anything was written, or in the transport after the
+bytes left (the server has then seen a request with that id). The ghost list `consumed` records
+the id of **every** executed `send` action, successful or not (`send_draws_next_id`); `nextId` is the
+counter. `rollbackOnFail = false` (the default, `{}`) is the code as it is. -/
+namespace Session
+
+/-- **every executed `send` draws exactly the next id**, whatever becomes of the call (builder ok or
+not, transport open, closed or blocked): the counter goes up by one and the drawn id is recorded. -/
+theorem send_draws_next_id (acts : List Act) (b : Bool) (hr : (St.run {} acts).rpc = none) :
+    let s := St.run {} acts
+    (s.step (.send b)).nextId = s.nextId + 1 ∧ (s.step (.send b)).consumed = s.consumed ++ [s.nextId + 1] :=
+  (step_nextId (run_ids acts).rb (.send b)).1 b rfl hr
+
+/-- a `send` while another `rpc()` call is still blocked in the transport is not executed at all
+(`rpc()` takes `&mut self`, assumption A2): nothing changes, no id is drawn -/
+theorem send_while_blocked_is_noop (acts : List Act) (b : Bool) (k : Nat) (hr : (St.run {} acts).rpc = some k) :
+    (St.run {} acts).step (.send b) = St.run {} acts :=
+  (step_nextId (run_ids acts).rb (.send b)).2.1 b k rfl hr
+
+/-- no other action touches the counter or the record: not a poll or a drop of any future, not a
+delivery, not the gate, not the failure of the transport — in particular **not the failure of a
+blocked `rpc()`** (`.gate true` / `.close` with a call in flight): its id stays consumed. -/
+theorem other_actions_keep_ids (acts : List Act) (a : Act) (ha : ∀ b, a ≠ .send b) :
+    let s := St.run {} acts
+    (s.step a).nextId = s.nextId ∧ (s.step a).consumed = s.consumed :=
+  (step_nextId (run_ids acts).rb a).2.2 ha
+
+/-- **the id counter never decreases**, along any history and any continuation of it -/
+theorem nextId_never_decreases (acts more : List Act) :
+    (St.run {} acts).nextId ≤ (St.run {} (acts ++ more)).nextId := by
+  rw [run_append]
+  exact run_nextId_le (run_ids acts) more
+
+/-- **no message-id is ever reused, failed calls included**: in every reachable state the ids drawn
+by all `send` actions so far are exactly `1, 2, …, nextId` — each once, in increasing order; every id
+on the wire, every reply future's id and the id of a blocked call are among them. -/
+theorem ids_never_reused (acts : List Act) :
+    let s := St.run {} acts
+    s.consumed = List.range' 1 s.nextId ∧ s.consumed.Pairwise (· < ·) ∧ s.consumed.Nodup ∧
+    (∀ x ∈ s.sent, x ∈ s.consumed) ∧ (∀ f ∈ s.futs, f.id ∈ s.consumed) ∧
+    (∀ k, s.rpc = some k → k ∈ s.consumed) := by
+  intro s
+  have h : Ids s := run_ids acts
+  refine ⟨h.cons, ?_, ?_, h.sentCons, ?_, h.rpcLe⟩
+  · rw [h.cons]; exact List.pairwise_lt_range'
+  · rw [h.cons]; exact List.nodup_range'
+  · intro f hf
+    apply h.sentCons
+    rw [← (run_inv acts).1.idsSent]
+    exact List.mem_map.2 ⟨f, hf, rfl⟩
+
+/-- … stated on the history: two different executed `send` actions — whether either of them
+succeeded or failed — never draw the same id; the later one draws a greater one. -/
+theorem distinct_sends_draw_distinct_ids (before between : List Act) (b1 b2 : Bool)
+    (h1 : (St.run {} before).rpc = none) (h2 : (St.run {} (before ++ .send b1 :: between)).rpc = none) :
+    let s1 := St.run {} before
+    let s2 := St.run {} (before ++ .send b1 :: between)
+    -- the ids the two calls draw
+    (s1.step (.send b1)).consumed = s1.consumed ++ [s1.nextId + 1] ∧
+    (s2.step (.send b2)).consumed = s2.consumed ++ [s2.nextId + 1] ∧
+    s1.nextId + 1 < s2.nextId + 1 := by
+  intro s1 s2
+  refine ⟨(send_draws_next_id before b1 h1).2, (send_draws_next_id _ b2 h2).2, ?_⟩
+  have e : s2 = St.run {} ((before ++ [.send b1]) ++ between) := by simp [s2]
+  have h3 := nextId_never_decreases (before ++ [.send b1]) between
+  rw [← e] at h3
+  have h4 : (St.run {} (before ++ [.send b1])).nextId = s1.nextId + 1 := by
+    rw [run_append]; exact (send_draws_next_id before b1 h1).1
+  omega
+
+/-- **the variant that gives the id back** (`rollbackOnFail = true`: a failing `rpc()` sets the
+counter back): history send-ok, send-failed, send-ok — the failed call (whose bytes may have reached
+the server) and the next call both carry id 2. The same history on the code as it is: 1, 2, 3. Also
+when the failing call was blocked in the transport and fails on `close`. -/
+theorem rollback_reuses_id_cex :
+    (St.run { rollbackOnFail := true } [.send true, .send false, .send true]).consumed = [1, 2, 2]
+    ∧ (St.run { rollbackOnFail := true } [.send true, .send false, .send true]).sent = [1, 2]
+    ∧ ¬ (St.run { rollbackOnFail := true } [.send true, .send false, .send true]).consumed.Nodup
+    ∧ (St.run {} [.send true, .send false, .send true]).consumed = [1, 2, 3]
+    ∧ (St.run {} [.send true, .send false, .send true]).sent = [1, 3]
+    ∧ (St.run { rollbackOnFail := true } [.send true, .gate false, .send true, .close, .send true]).consumed = [1, 2, 2]
+    ∧ (St.run {} [.send true, .gate false, .send true, .close, .send true]).consumed = [1, 2, 3] := by
+  decide
+
+/-- non-vacuity: a history with failed builders, a blocked and then failing send, drops and polls -/
+example : let s := St.run {} [.send true, .send false, .poll 0, .gate false, .send true, .send true, .close,
+      .send true, .drop 0, .send false]
+    s.consumed = [1, 2, 3, 4, 5] ∧ s.sent = [1] ∧ s.nextId = 5 := by decide
+
+end Session
